@@ -874,6 +874,10 @@ func c01R5(c *Ctx, r *Report) {
 // c01R6: a struct field used as a union selector must be masked identically by every consumer that selects on it.
 func c01R6(c *Ctx, r *Report) {
 	r.rule("C01.R6.selector-mask", 2, "every consumer selecting on a union selector field applies the same mask")
+	selectorMaskRule(c, r, "C01.R6.selector-mask")
+}
+
+func selectorMaskRule(c *Ctx, r *Report, rule string) {
 	// selector fields: fields of RR structs passed as the selector argument of the gateway codecs or used as a switch tag
 	type use struct {
 		fn   string
@@ -993,7 +997,7 @@ func c01R6(c *Ctx, r *Report) {
 		}
 		construct := owner + "." + f.Name()
 		if len(masks) == 1 {
-			r.ok("C01.R6.selector-mask", construct, c.pos(f.Pos()), fmt.Sprintf("%d consumers agree", len(us)))
+			r.ok(rule, construct, c.pos(f.Pos()), fmt.Sprintf("%d consumers agree", len(us)))
 			continue
 		}
 		var parts []string
@@ -1010,7 +1014,7 @@ func c01R6(c *Ctx, r *Report) {
 			}
 			parts = append(parts, m+": "+strings.Join(masks[k], ", "))
 		}
-		r.fail("C01.R6.selector-mask", construct, c.pos(f.Pos()), "consumers select on this union selector under different masks: %s", strings.Join(parts, " | "))
+		r.fail(rule, construct, c.pos(f.Pos()), "consumers select on this union selector under different masks: %s", strings.Join(parts, " | "))
 	}
 }
 
